@@ -90,6 +90,12 @@ impl<const TOTAL_NUM_BITS: u32, const NUM_INDEX_BITS: u32>
         }
     }
 
+    /// `pa.verif_accumulator()` is the raw accumulator value (verification hook, read-only)
+    #[cfg(feature = "verif-hooks")]
+    pub fn verif_accumulator(&self) -> u32 {
+        self.accumulator
+    }
+
     /// `pa.reset()` resets the phase accumulator to zero
     pub fn reset(&mut self) {
         self.accumulator = 0;
